@@ -37,6 +37,96 @@ theorem provided_not_variables (key : Str) (pid : Nat) :
   subst h
   rfl
 
+/-! ### across isolated contexts -/
+
+/-- **Providers reach through isolated contexts.**  For every context whose layers are dicts (keys
+unique) and every provider key: what `_DJC_INJECT__<key>` resolves to in the context an isolated /
+`only` component is rendered with is exactly what it resolves to at the component tag — the
+nearest enclosing provider, at any depth of layers. -/
+theorem inject_key_survives_isolation (ctx : Ctx) (key : Str) (h : ∀ l ∈ ctx, UniqueKeys l) :
+    ctxGet (isolatedCopy ctx) (injectPrefix ++ key) = ctxGet ctx (injectPrefix ++ key) := by
+  have hpre : startsWith injectPrefix (injectPrefix ++ key) = true := by
+    simp [startsWith]
+  have hhead : (injectPrefix ++ key).head? = some '_' := rfl
+  have hperm : permKey ≠ injectPrefix ++ key := by
+    intro e
+    have h1 : permKey.head? = some '_' := by rw [e]; exact hhead
+    revert h1; decide
+  have hrc : rcRootKey ≠ injectPrefix ++ key := by
+    intro e
+    have h1 : rcRootKey.head? = some '_' := by rw [e]; exact hhead
+    revert h1; decide
+  have htake : (injectPrefix ++ key).take 6 = ['_', 'D', 'J', 'C', '_', 'I'] := rfl
+  have hcomp : compKey ≠ injectPrefix ++ key := by
+    intro e
+    have h1 : compKey.take 6 = ['_', 'D', 'J', 'C', '_', 'I'] := by rw [e]; exact htake
+    revert h1; decide
+  unfold isolatedCopy
+  rw [ctxGet_rebase _ _ hperm]
+  generalize injectPrefix ++ key = k at *
+  have hl0 : lookupL k (if hasRootRc ctx then [(rcRootKey, Val.none)] else []) = Option.none := by
+    split <;> simp [lookupL, hrc]
+  cases hv : ctxGet ctx k with
+  | none =>
+    -- no provider of this key: none of the copied pairs has it, and the fresh base does not either
+    have hall := ctxGet_none_all ctx k hv
+    rw [ctxGet_fold_setTop]
+    · have hbase : ctxGet (match forLayerToCopy ctx with
+          | some l => [(if hasRootRc ctx then [(rcRootKey, Val.none)] else []), l]
+          | Option.none => [(if hasRootRc ctx then [(rcRootKey, Val.none)] else [])]) k = Option.none := by
+        cases hf : forLayerToCopy ctx with
+        | none => simp [ctxGet, hl0]
+        | some l =>
+          have := hall l (forLayerToCopy_mem' ctx l hf)
+          simp [ctxGet, hl0, this]
+      cases hc : ctxGet ctx compKey with
+      | none => exact hbase
+      | some v =>
+        dsimp only
+        rw [ctxGet_setTop_ne _ _ _ _ hcomp]
+        exact hbase
+    · intro kv hkv e
+      have hlk : lookupL k (flatten ctx) = Option.none := by rw [lookupL_flatten ctx k h]; exact hv
+      have hmem : kv ∈ flatten ctx := by
+        simp [injectKeysOf] at hkv; exact hkv.1
+      have : k ∈ (flatten ctx).map (·.1) := e ▸ List.mem_map_of_mem (f := fun x : Str × Val => x.1) hmem
+      -- a key of the dict has a value
+      have hsome : (lookupL k (flatten ctx)).isSome = true := by
+        clear hlk
+        generalize flatten ctx = fl at this
+        induction fl with
+        | nil => simp at this
+        | cons a rest ih =>
+          obtain ⟨ak, av⟩ := a
+          by_cases hk : ak = k
+          · simp [lookupL, hk]
+          · simp only [List.map_cons, List.mem_cons] at this
+            rcases this with t | t
+            · exact absurd t.symm hk
+            · simp [lookupL, hk, ih t]
+      rw [hlk] at hsome
+      cases hsome
+  | some v =>
+    have hlk : lookupL k (injectKeysOf ctx) = some v := by
+      unfold injectKeysOf
+      rw [lookupL_filter_key k (fun s => startsWith injectPrefix s) _ hpre, lookupL_flatten ctx k h]
+      exact hv
+    apply ctxGet_fold_setTop_mem _ _ _ _ (unique_filter _ _ (unique_flatten ctx)) hlk
+    cases hc : ctxGet ctx compKey with
+    | none => cases forLayerToCopy ctx <;> simp
+    | some w =>
+      dsimp only
+      unfold ctxSetTop
+      split
+      · simp
+      · intro e
+        have := congrArg List.length e
+        simp at this
+
+example : (match ctxGet (isolatedCopy [[], [("a".toList, .str [])], [(injectPrefix ++ ['k'], .provRef 7)], [("b".toList, .none)]])
+    (injectPrefix ++ ['k']) with | some (.provRef p) => p | _ => 0) = 7 := by
+  decide
+
 /-! ### the provided data stays alive while the provider's body renders (after fix 2193c9f) -/
 
 /-- the provider `pid` holds its own reference and its data is in the cache -/
